@@ -1,6 +1,7 @@
 import Ptk.Proto
 import Ptk.Model.C12
 import Ptk.Model.C12Orig
+import Ptk.Model.C12Tree
 open Ptk Ptk.Proto Ptk.C12
 
 /-- `N` or a natural number -/
@@ -139,6 +140,61 @@ def runLayout (r : Req) (x y w h : Nat) (done : Bool) : String :=
         if r.horizontal then encRegion x p.1 w p.2 else encRegion p.1 y p.2 h
       "ok " ++ encList enc regs ++ " rem:" ++ (match rem with | none => "-" | some p => enc p)
 
+/-! nested containers: prefix notation
+    `W id <spec w> <spec h>` | `H al <spec pad> n node*` | `V al <spec pad> n node*` -/
+
+def specDim (s : Option Nat × Option Nat × Option Nat × Option Nat) : Option Dim :=
+  windowDim s.1 s.2.1 s.2.2.1 s.2.2.2
+
+mutual
+partial def parseNode : List String → Option (Node × List String)
+  | "W" :: id :: rest => do
+    let id ← decNat id
+    let (sw, rest) ← decSpec rest
+    let (sh, rest) ← decSpec rest
+    pure (.win id (← specDim sw) (← specDim sh), rest)
+  | "H" :: al :: rest => do
+    let al ← decAlign al
+    let (sp, rest) ← decSpec rest
+    match rest with
+    | n :: rest =>
+      let (cs, rest) ← parseNodes (← decNat n) rest
+      pure (.hsplit al (← specDim sp) cs, rest)
+    | [] => none
+  | "V" :: al :: rest => do
+    let al ← decAlign al
+    let (sp, rest) ← decSpec rest
+    match rest with
+    | n :: rest =>
+      let (cs, rest) ← parseNodes (← decNat n) rest
+      pure (.vsplit al (← specDim sp) cs, rest)
+    | [] => none
+  | _ => none
+partial def parseNodes : Nat → List String → Option (List Node × List String)
+  | 0, rest => some ([], rest)
+  | n + 1, toks => do
+    let (c, rest) ← parseNode toks
+    let (cs, rest) ← parseNodes n rest
+    pure (c :: cs, rest)
+end
+
+def encTag : Tag → String
+  | .user id => s!"u{id}"
+  | .pad => "p"
+  | .filler => "f"
+  | .remaining => "r"
+  | .tooSmall => "s"
+
+/-- grow the fuel until every inner division answers (cf. `untilAnswer`) -/
+partial def untilSome {α : Type} (f : Nat → Option α) (fuel : Nat) : Option α :=
+  match f fuel with
+  | some a => some a
+  | none => if fuel > 2 ^ 24 then none else untilSome f (2 * fuel)
+
+def rootTag : Node → Tag
+  | .win id _ _ => .user id
+  | _ => .user 0
+
 def handle : List String → String
   | ["dim", a, b, c, d] =>
     match decSpec [a, b, c, d] with
@@ -186,6 +242,26 @@ def handle : List String → String
     match decBool done, decNat avail, decReq dir al rest with
     | some done, some avail, some (some r, []) => runDivideOrigBounded r avail done
     | some _, some _, some (none, []) => "err:ValueError"
+    | _, _, _ => "bad-op"
+  | "tree" :: x :: y :: w :: h :: rest =>
+    match decNats [x, y, w, h], parseNode rest with
+    | some [x, y, w, h], some (n, []) =>
+      match untilSome (fun fuel => render fuel (n.depth + 1) (rootTag n) n ⟨x, y, w, h⟩)
+          (64 * (w + h + 4)) with
+      | some rs => "ok " ++ encList (fun (p : Tag × Rect) =>
+          s!"{encTag p.1}:{p.2.x},{p.2.y},{p.2.w},{p.2.h}") rs
+      | none => "err:Hang"
+    | _, _ => "bad-op"
+  | "tpw" :: avail :: rest =>
+    match decNat avail, parseNode rest with
+    | some avail, some (n, []) =>
+      encDim (untilSome (fun fuel => prefW fuel (n.depth + 1) n avail) (64 * (avail + 4)))
+    | _, _ => "bad-op"
+  | "tph" :: width :: availH :: rest =>
+    match decNat width, decNat availH, parseNode rest with
+    | some width, some availH, some (n, []) =>
+      encDim (untilSome (fun fuel => prefH fuel (n.depth + 1) n width availH)
+        (64 * (width + availH + 4)))
     | _, _, _ => "bad-op"
   | "lay" :: dir :: al :: done :: x :: y :: w :: h :: rest =>
     match decBool done, decNats [x, y, w, h], decReq dir al rest with
